@@ -106,10 +106,14 @@ func newNativeReplayer(spec *Spec) (*nativeReplayer, error) {
 
 func (r *nativeReplayer) cleanup() { os.RemoveAll(r.dir) }
 
-func (r *nativeReplayer) run(entry string, bounds map[string]int64, inputs []NondetVal, timeout time.Duration) nativeOutcome {
+func (r *nativeReplayer) run(entry string, bounds map[string]int64, inputs []NondetVal, timeout time.Duration, env ...[]FSPre) nativeOutcome {
 	r.nruns++
 	f := filepath.Join(r.dir, fmt.Sprintf("in%d.json", r.nruns))
-	b, _ := json.Marshal(map[string]interface{}{"entry": entry, "bounds": bounds, "inputs": inputs})
+	var fsPre []FSPre
+	if len(env) > 0 {
+		fsPre = env[0]
+	}
+	b, _ := json.Marshal(map[string]interface{}{"entry": entry, "bounds": bounds, "inputs": inputs, "fs_pre": fsPre})
 	os.WriteFile(f, b, 0o644)
 	defer os.Remove(f)
 	work := filepath.Join(r.dir, fmt.Sprintf("w%d", r.nruns))
@@ -246,7 +250,7 @@ func replayMain(args []string) int {
 		return 2
 	}
 	defer rep.cleanup()
-	out := rep.run(rf.Entry, rf.Bounds, rf.Inputs, 30*time.Second)
+	out := rep.run(rf.Entry, rf.Bounds, rf.Inputs, 30*time.Second, rf.Env)
 	fmt.Println(out.raw)
 	v := Violation{kind: rf.Kind, msg: rf.Assertion}
 	if out.matches(v) {
